@@ -147,7 +147,10 @@ def gen_direct_tokens(rng):
     return toks
 
 
-PY_STMTS = ['x = 1', 'pass', 'y = (1,\n      2)', 'foo(a,\n b)', 'z = [1,\n\n2,\n   3]', 'x += y  # c', 'return x', 'd = {1: 2,\n 3: 4}', 'print(x)']
+PY_STMTS = ['x = 1', 'pass', 'y = (1,\n      2)', 'foo(a,\n b)', 'z = [1,\n\n2,\n   3]', 'x += y  # c', 'return x', 'd = {1: 2,\n 3: 4}', 'print(x)',
+            # brackets and line breaks that must NOT reach the Indenter as brackets / newlines: inside strings, comments, after a backslash
+            's = "(["', "t = '''a\n      (b\n'''", 'u = r"\\("', 'v = 1 + \\\n      2', 'w = 3  # comment with ( [ {', 'q = "a\\"b("', "k = ')' + x",
+            'm = (\n    "]",  # )\n    1)', 'n = f(a)[0]["k"]', 'o = {"a": [1, (2,\n 3)]}', 'r = """x\n"""  # after', 'e = 1 if a else (2)']
 PY_HEADS = ['if a:', 'while b:', 'def f(a, b):', 'for i in (1,\n   2):', 'class C:', 'else:', 'try:', 'with open(f) as g:']
 
 
